@@ -35,7 +35,7 @@ PROPS["C01"] = {
         {"driver": "field", "trace": "Trace_Field", "goarch": "386"},          # the same arithmetic where int / uint are 32 bits wide
     ],
     "require_classes": {"quick": ["life_step", "life_zero", "life_reject", "sum_window", "diff_borrow", "mont_window", "mont_sqr_window", "decode_ge_p", "canon_reject",
-                                  "wide_len_odd", "wide_ge_p", "wide_panic", "sqrt_residue", "sqrt_nonresidue", "sqrt_zero",
+                                  "wide_len_odd", "wide_ge_p", "wide_fold_carry", "wide_panic", "sqrt_residue", "sqrt_nonresidue", "sqrt_zero",
                                   "ratio_v0", "ratio_square", "ratio_nonsquare", "inv_zero", "alias_all", "alias_recv",
                                   "pow2k_panic", "near_p"]},
     "assumptions": [
@@ -67,7 +67,7 @@ PROPS["C02"] = {
     ],
     "require_classes": {"quick": ["life_step", "life_zero", "life_reject", "sum_window", "diff_borrow", "mont_window", "mont_sqr_window", "decode_ge_n", "canon_reject",
                                   "inv_zero", "inv_special", "alias_all", "alias_recv", "half_boundary", "gt_half", "le_half",
-                                  "sum_empty", "sum_alias", "sum_long", "prod_empty", "pow2k_panic", "near_n", "cneg_zero"]},
+                                  "sum_empty", "sum_alias", "sum_long", "sum_fold_window_value", "sum_fold_window_mont", "prod_empty", "pow2k_panic", "near_n", "cneg_zero"]},
     "assumptions": [
         "the fiat limb code is sampled (steered corner operands + exact TLA+ oracle), not proved for every operand",
         "TLC evaluates 256-bit arithmetic through java.math.BigInteger (BigInt.tla overrides), re-validated by SelfTest.tla",
@@ -196,7 +196,7 @@ PROPS["C16"] = {
     "drivers": [{"driver": "msm", "trace": "Trace_Point"},
                 {"driver": "msm", "trace": "Trace_Point", "tags": ("verif", "purego")}],
     "require_classes": {"quick": ["msm_len0", "msm_len1", "msm_len2", "msm_len3plus", "msm_long", "msm_zero_scalar", "msm_inf_point", "msm_dup",
-                                  "msm_inverse", "msm_alias", "msm_mismatch", "msm_cancel", "dsm", "mul_alias"]},
+                                  "msm_inverse", "msm_alias", "msm_alias_far", "msm_mismatch", "msm_cancel", "dsm", "mul_alias"]},
     "assumptions": ["full-size list shapes and operand classes are sampled with an exact oracle; exhaustiveness is on the miniature curve"],
 }
 
@@ -224,7 +224,7 @@ PROPS["C07"] = {
                 {"driver": "verify", "trace": "Trace_Ecdsa", "goarch": "386", "tiers": ("thorough",)}],
     "require_classes": {"quick": ["r_zero", "s_zero", "high_s_rej", "high_s_acc", "x_ge_n", "R_inf", "e_zero", "digest_ge_n", "digest_short",
                                   "digest_long", "digest_huge", "accept", "reject", "enc_asn1", "enc_compact", "enc_rec", "enc_bogus", "rec_wrong_v", "btc_accept",
-                                  "btc_badenv", "btc_high_s", "hash_mismatch", "parse_reject", "cmp_shift_n", "alt_path", "nil_opts", "after_scribble", "near_miss_r"]},
+                                  "btc_badenv", "btc_high_s", "hash_mismatch", "hash_exotic_accept", "parse_reject", "cmp_shift_n", "alt_path", "nil_opts", "after_scribble", "near_miss_r"]},
     "assumptions": ["full-size inputs are constructed per corner class and decided by an exact oracle; all inputs are enumerated only on miniature curves"],
 }
 
@@ -332,7 +332,7 @@ PROPS["C12"] = {
     "require_classes": {"quick": ["der_ok", "der_bad", "der_len_long_form", "der_indefinite", "der_leading_zero", "der_negative", "der_trailing",
                                   "der_wrong_tag", "der_empty_int", "der_33_byte", "der_value_zero", "der_value_ge_n", "der_short_input",
                                   "build_roundtrip", "build_high_bit", "build_short", "cmp_ok", "cmp_bad_len", "cmp_zero", "cmp_ge_n", "cmpv_ok", "spki_prefix_sweep",
-                                  "bip_ok", "bip_len_edge", "bip_bad", "bip_but_not_der", "bip_neg", "bip_padding",
+                                  "bip_ok", "bip_len_edge", "bip_bad", "bip_but_not_der", "bip_neg", "bip_len_wide", "bip_padding",
                                   "spki_ok_unc", "spki_ok_cmp", "spki_unused_bits", "spki_unused_bits_zero_pad", "spki_bad_oid", "spki_trailing",
                                   "spki_bad_point", "spki_identity", "spki_params", "spki_bad", "random_bytes", "model_sig_shape", "model_spki_shape", "enc_stable"]},
     "assumptions": ["full-size byte strings are enumerated per structural class and sampled at random; all strings are enumerated only at miniature width"],
@@ -364,7 +364,7 @@ PROPS["C13"] = {
     "drivers": [{"driver": "schnorr", "trace": "Trace_Schnorr"},
                 {"driver": "schnorr", "trace": "Trace_Schnorr", "tags": ("verif", "purego")}],   # the portable lookups are part of key derivation and signing
     "require_classes": {"quick": ["pk_ok", "pk_x_ge_n", "pk_not_on_curve", "pk_ge_p", "pk_bad_len", "vfy_accept", "vfy_reject", "r_ge_p", "s_ge_n", "s_zero",
-                                  "R_odd_y", "R_inf", "x_mismatch", "msg_len_0", "msg_nil_accept", "msg_len_odd", "msg_len_long", "sig_bad_len", "vector"]},
+                                  "R_odd_y", "R_inf", "x_mismatch", "msg_len_0", "msg_nil_accept", "msg_len_odd", "msg_len_long", "msg_len_blocks", "sig_bad_len", "vector"]},
     "assumptions": ["full-size inputs are constructed per corner class and decided by an exact oracle"],
 }
 
@@ -383,7 +383,7 @@ PROPS["C14"] = {
                 {"driver": "schnorr", "trace": "Trace_Schnorr", "tags": ("verif", "purego")}],   # the portable lookups are part of key derivation and signing
     "require_classes": {"quick": ["sign_P_even_R_even", "sign_P_even_R_odd", "sign_P_odd_R_even", "sign_P_odd_R_odd", "aux_zero", "aux_ones",
                                   "sign_public_api", "sign_reader_fail", "from_point_odd", "from_point_even", "from_point_inf", "from_point_altrep",
-                                  "from_ecdsa", "self_verify", "immutable", "msg_len_0", "msg_nil_sign", "msg_len_odd", "msg_len_long", "vector"]},
+                                  "from_ecdsa", "self_verify", "immutable", "msg_len_0", "msg_nil_sign", "msg_len_odd", "msg_len_long", "msg_len_blocks", "vector"]},
     "assumptions": ["k' = 0 (a 2^-256 event) is covered only by the model"],
 }
 
@@ -444,19 +444,21 @@ PROPS["C18"] = {
     ],
     "drivers": [{"driver": "api", "trace": "Trace_Api",
                  "shape": [{"spec": "MC_Api", "cfg": "Sys_Api.cfg", "params": "mini211", "mode": "bfs", "big": True},
-                           {"spec": "MC_Api", "cfg": "Shape_Api.cfg", "params": "mini211", "num": (20, 150), "depth": 60, "procs": 16, "big": True}]}],
+                           {"spec": "MC_Api", "cfg": "Shape_Api.cfg", "params": "mini211", "num": (20, 100), "depth": 60, "procs": 16, "big": True}]}],
     "require_classes": {"quick": ["alias_recv", "alias_args", "alias_all", "kind_panic", "kind_err", "kind_ok", "uninit_operand", "decode_fail_valid_recv",
                                   "decode_fail_uninit_recv", "decode_ok", "key_ctor_ok", "key_ctor_err", "mutate_with_key", "mutate_buf_with_key",
                                   "mutate_scalar_with_key", "mutate_point_with_key", "msm", "msm_mismatch", "scalar_decode_err", "reply", "reset",
                                   "schnorr_ctor_ok", "schnorr_ctor_err", "mutate_with_schnorr_key", "recover_call", "coords_call", "fresh_ctor",
-                                  "sign_ok", "sign_err", "verify_true", "verify_false", "sig_recover_ok", "sig_recover_err", "sig_kept_across_sign",
+                                  "sign_ok", "sign_err", "verify_true", "verify_false", "sig_recover_ok", "sig_recover_err", "sig_recover_qinf", "sig_kept_across_sign",
                                   "schnorr_sign", "schnorr_verify_true", "schnorr_verify_false", "ctrl_not_bool",
                                   "uniform_ok", "uniform_uninit_recv", "uniform_exceptional", "uniform_panic",
                                   "btc_true", "btc_false", "spki_build", "spki_parse_ok", "spki_parse_err", "append_byte",
-                                  "equal_true", "equal_false", "equal_foreign", "prehash_ok", "prehash_err", "generate", "blind_step"]},
+                                  "equal_true", "equal_false", "equal_foreign", "prehash_ok", "prehash_err", "generate", "blind_step",
+                                  "sc_ctor", "sc_ctor_err", "split_ok", "split_panic", "signraw_ok", "signraw_err", "verifyraw_true", "verifyraw_false",
+                                  "hedged_ok", "hedged_err", "h2c_ok", "h2c_err", "h2c_args_same", "bip66_true", "bip66_false"]},
     "assumptions": ["histories are sampled by TLC's simulator from the exhaustive call set (all alias patterns are enumerated; sequences are random); the depth-bounded "
                     "exhaustive exploration is on the miniature curve",
-                    "hash-to-curve and hedged (entropy-consuming) signing are not pool operations (covered functionally by C09, C15); pool signing uses the RFC 6979 selector and fixed BIP-340 entropy so that every reply is a function of the pool"],
+                    "pool signing uses the RFC 6979 selector and fixed BIP-340 entropy so that every reply is a function of the pool; for the hedged signing operation (round 8) the pool model fixes only validity, low s, placement and the frame - which nonce is used is C09's business"],
 }
 
 
